@@ -761,6 +761,9 @@ func init() {
 					}
 				}
 				p.Cfg.Extra = map[string]int64{"via_adapter": 1}
+				if r.Bool() {
+					addFaults(r, p, 0.06) // a request that fails on a storage error is still one request
+				}
 				return p
 			}
 			switch n % 3 {
